@@ -315,6 +315,10 @@ val mev_eqb : mev -> mev -> bool
 val replay_trace :
   (nat -> op list) -> ((nat * mch) * mev) list -> (mstate option, nat) sum
 
+val replay_from :
+  (nat -> op list) -> mstate -> ((nat * mch) * mev) list -> (mstate option,
+  nat) sum
+
 val peek : mstate -> nat -> mch -> mev option
 
 type fn =
@@ -411,8 +415,7 @@ type rlctx =
 type rpc =
 | RIdle
 | RTALoad of ractx
-| RTACasR of ractx * bool * n
-| RTACasW of ractx * bool * bool
+| RTACas of ractx * bool * bool * n
 | RYield of rw * bool
 | RSpinNext of rw * bool
 | RPollNext of rw * bool
@@ -422,8 +425,7 @@ type rpc =
 | RQRearm of rqctx
 | RQFor of rqctx
 | RQLoad of rqctx
-| RQCasR of rqctx * bool * n
-| RQCasW of rqctx * bool * bool
+| RQCas of rqctx * bool * bool * n
 | RFix1 of rfixk
 | RFix2 of rfixk
 | RQUnl of rqctx * bool
@@ -552,7 +554,7 @@ val rflush : rwstate -> nat -> (wk * nat) list -> rwstate
 
 val wake_of : rwstate -> nat -> (wk * nat) list
 
-val after_acq_a : rwstate -> nat -> ractx -> rw -> rpc
+val after_acq_a : rwstate -> nat -> ractx -> rpc
 
 val rwstep : rwstate -> nat -> rch -> (rwstate * mev) option
 
@@ -562,6 +564,10 @@ val rwsys : (nat -> rop list) -> system
 
 val rw_replay_trace :
   (nat -> rop list) -> ((nat * rch) * mev) list -> (rwstate option, nat) sum
+
+val rw_replay_from :
+  (nat -> rop list) -> rwstate -> ((nat * rch) * mev) list -> (rwstate
+  option, nat) sum
 
 val rwpeek : rwstate -> nat -> rch -> mev option
 
